@@ -45,6 +45,9 @@ pub struct Ctx {
     pub skipped_budget: u64,
     pub notes: Vec<String>,
     pub current: String,
+    /// where the shard report goes; it is also flushed whenever a new kind of violation is
+    /// recorded, so that a later stall or crash of the shard does not lose it
+    pub out_path: Option<String>,
 }
 
 impl Ctx {
@@ -72,6 +75,7 @@ impl Ctx {
             skipped_budget: 0,
             notes: vec![],
             current: String::new(),
+            out_path: None,
         }
     }
     pub fn thorough(&self) -> bool {
@@ -162,6 +166,13 @@ impl Ctx {
                 case,
                 detail,
             });
+            if same_sig == 0 {
+                if let Some(p) = &self.out_path {
+                    let mut js = self.to_json();
+                    js["partial"] = serde_json::json!(true);
+                    let _ = std::fs::write(p, serde_json::to_string(&js).unwrap_or_default());
+                }
+            }
         }
     }
     pub fn inconclusive(&mut self, why: &str, workload: &str, case: u64) {
